@@ -444,6 +444,8 @@ func (p *pp) fmtComplex(v complex128, size int, verb rune) {
 	// calls to fmtFloat to not generate an incorrect error string.
 	switch verb {
 	case 'v', 'b', 'g', 'G', 'x', 'X', 'f', 'F', 'e', 'E':
+		// CUSTOM: the parentheses and the "i" are part of the number.
+		defer p.startUnsafe().restore()
 		oldPlus := p.fmt.plus
 		p.buf.writeByte('(')
 		p.fmtFloat(real(v), size/2, verb)
